@@ -1,4 +1,16 @@
-"""C06 -- tank volumes integrate their net inflow and stay within their limits (integration step, bookkeeping, limit controls)."""
+"""C06 -- tank volumes integrate their net inflow and stay within their limits (integration step, bookkeeping, limit controls).
+
+Techniques (DESIGN 2b), per rule:
+* T2 symbolic path enumeration (AtomExec / SymExec, sympy is_zero): R-C06-1 (Euler step, get_volume / level / init_level),
+  R-C06-3 (case table of _get_all_tank_controls), R-C06-4 (partial step of TankLevelCondition.evaluate).
+* T1 structural + T2: R-C06-2 (CFG reachability in run_sim; stores of update_network_previous_values from symbolic events; the time
+  advance is recognised only as `self._wn.sim_time += ..`, source_head_param by a substring of its unparsed source).
+* T3 finite evaluation, exhaustive over a finite domain: R-C06-3b (3 x 3 status table by sa/peval, via c02.status_table).
+* PRESENCE / TEXT MATCHES ONLY (T1 in name; they decide that a construct is present, not what it does): R-C06-1b (an assignment
+  to self._head exists in two setters, value not examined), R-C06-1c (locals named vcurve/arr/curve/points assigned from a text
+  containing '.points'), R-C06-3c (substring 'isinstance(other_node, Tank)'), R-C06-3d (an attribute flow/_flow is read somewhere in
+  _CloseHeadPumpCondition.evaluate), R-C06-5 (some *interp call has a left=/right= keyword, or there is no such call).
+"""
 import ast
 import os
 import re
@@ -15,16 +27,22 @@ ELEM = "wntr/network/elements.py"
 CTRL = "wntr/network/controls.py"
 
 EXPLANATION = (
-    "Formula extraction of update_tank_heads (explicit Euler step): dt = sim_time - _prev_sim_time; cylindrical tanks: new head = last accepted "
-    "head + demand*dt/(pi*D^2/4); volume-curve tanks: V0 = interp(last accepted level; level->volume), V1 = V0 + demand*dt, new level = "
-    "interp(V1; volume->level) on the same curve with transposed axes, always measured from the last accepted level; Tank.get_volume / level / "
-    "init_level definitions; update_network_previous_values stores time and tank heads and is called exactly once per accepted step after "
-    "save_results and before the time advance (and once before the loop on a first step); every non-first, non-resolve iteration recomputes tank "
-    "heads after the step's final time is known and before the source-head parameters are refreshed; case table of _get_all_tank_controls over "
-    "link kind x orientation x limit (which links get closing / opening controls at which head, priority and solve phase); tank-level conditions "
-    "compute a non-negative partial step of dimension seconds. Decides the integration formula and the controls' construction, not trajectories.")
-RULE_TEXT = "one instance = one extracted formula, one bookkeeping path rule, or one row of the limit-control case table"
-ASSUMPTIONS = ["the ~2 s overshoot bound and limits on every trajectory depend on the timing of the re-solve loop (not decided)"]
+    "T2 (symbolic path enumeration to sympy forms, path-condition atoms and call events): R-C06-1 update_tank_heads is the explicit Euler step -- "
+    "dt = sim_time - _prev_sim_time; cylindrical tanks: new head = last accepted head + demand*dt/(pi*D^2/4); volume-curve tanks: V^-1(V(accepted level) "
+    "+ demand*dt) with transposed axes -- and Tank.get_volume / level / init_level follow their definitions; R-C06-3 case table of "
+    "_get_all_tank_controls over link kind x orientation x limit (which links get closing / re-opening controls at which head, priority, solve "
+    "phase); R-C06-4 TankLevelCondition.evaluate stores floor((cur - thr)*area/demand) (floor(dV/demand) for curves) only when the condition became "
+    "true since the last value (units and sign are not analysed). T1+T2: R-C06-2 CFG reachability in run_sim: previous values (time, tank heads) are "
+    "stored once per accepted step after save_results and before the advance (seen only as `sim_time +=`), heads recomputed on non-first, "
+    "non-resolve iterations; source_head_param by text. T3, exhaustive over the 3x3 (user, internal) status table evaluated by sa/peval: R-C06-3b "
+    "Pipe/Pump/Valve.status is Closed when the internal status is. Presence / text matches only, nothing evaluated: R-C06-1b the elevation and "
+    "init_level setters contain an assignment to self._head; R-C06-1c curve locals are assigned from text containing '.points'; R-C06-3c "
+    "_get_all_tank_controls contains 'isinstance(other_node, Tank)'; R-C06-3d _CloseHeadPumpCondition.evaluate reads an attribute flow/_flow; "
+    "R-C06-5 an interp call carries left=/right= (or none exists). Decides the integration formula and the controls' construction, not trajectories.")
+RULE_TEXT = "one instance = one extracted formula, one bookkeeping path rule, one row of the limit-control case table, or one presence check"
+ASSUMPTIONS = ["the ~2 s overshoot bound and limits on every trajectory depend on the timing of the re-solve loop (not decided)",
+               "R-C06-1b, -1c, -3c, -3d and -5 are presence / text matches on the parsed source: they do not examine the value assigned or how the matched construct is used",
+               "R-C06-2 skips its 'stored before the advance' obligation silently when the advance is not written `self._wn.sim_time += ..`"]
 
 
 def interp_hook(name, node, args, kwargs, st, ex, recv):
@@ -596,6 +614,7 @@ def run(repo, chk):
 
     # ================================================================ rules added after the defect hunt (hunted/C06)
     # ---------------------------------------------------------------- R-C06-1b "starting from init_level": both quantities the starting head is made of refresh it
+    # (presence match: an Assign whose target unparses to self._head must exist in each setter; the assigned value is not examined)
     tk = repo.cls(ELEM, "Tank")
     setters = {n.name: n for n in tk.body if isinstance(n, ast.FunctionDef) and any(isinstance(d, ast.Attribute) and d.attr == "setter" for d in n.decorator_list)}
     ini_ = [n for n in tk.body if isinstance(n, ast.FunctionDef) and n.name == "__init__"][0]
@@ -612,6 +631,7 @@ def run(repo, chk):
     chk.floor("R-C06-1b", 2)
 
     # ---------------------------------------------------------------- R-C06-1c the volume curve used is the tank's CURRENT curve
+    # (AST + substring match: only locals named vcurve / arr / curve / points are inspected, for the text '.points'; other spellings pass unchecked)
     # Curve.points has a setter: the integration step and get_volume must read the points at the time of use (or through a memo keyed by them)
     def curve_source_ok(fn, owner_cls):
         bad = []
@@ -648,6 +668,7 @@ def run(repo, chk):
                    expected="Closed", found={u: tab[(u, "Closed")] for u in bad_})
 
     # ---------------------------------------------------------------- R-C06-3c a link between two tanks: re-opening looks at the other tank's limit too
+    # (text match: the substring 'isinstance(other_node, Tank)' in the unparsed function; what the test is used for is not analysed)
     gat = repo.func(CORE, "WNTRSimulator._get_all_tank_controls")
     txt_ = unparse(gat)
     looks_at_other_tank = "isinstance(other_node, Tank)" in txt_ or "isinstance(other_node, wntr.network.Tank)" in txt_
@@ -657,6 +678,7 @@ def run(repo, chk):
                found="other_node is used only through its head")
 
     # ---------------------------------------------------------------- R-C06-3d pumps are skipped by the tank controls because they cannot run backwards -- they must not
+    # (presence match: an attribute named flow / _flow is read somewhere in evaluate(); the condition is not evaluated -- the peval names imported below are unused)
     from ..peval import Evaluator as _Ev, Obj as _Obj, Unknown as _Unk, Raised as _Rs
     for cname in ("_CloseHeadPumpCondition",):      # power pumps: the constant-power relation admits no reverse-flow solution (checked by experiment), not claimed
         ev_fn = repo.func(CTRL, cname + ".evaluate")
@@ -668,6 +690,7 @@ def run(repo, chk):
                    "through the open pump below its minimum level", expected="also true when pump.flow < -Qtol (as _CloseCVCondition)", found="no read of the pump's flow")
 
     # ---------------------------------------------------------------- R-C06-5 volume curves are not silently clamped at their ends
+    # (presence match: passes if any call ending in 'interp' carries a left= / right= keyword, or if there is no such call)
     uth = repo.func(HYD, "update_tank_heads")
     interp_calls = [c for c in calls(uth) if (call_name(c) or "").endswith("interp")]
     extended = any(k.arg in ("left", "right") for c in interp_calls for k in c.keywords) or not interp_calls
